@@ -33,11 +33,14 @@ type ListParams struct {
 	Last       string     `json:"last,omitempty"`
 	Helper     bool       `json:"helper,omitempty"`       // go through registry.Tags / registry.Referrers, which collect all pages
 	FailAtPage int        `json:"fail_at_page,omitempty"` // callback fails at this page (1-based; 0 = never)
-	FailWith   string     `json:"fail_with,omitempty"`    // the callback's error wraps this sentinel error of the library ("" = none)
-	MaxMeta    int64      `json:"max_meta,omitempty"`
-	Pad        int        `json:"pad,omitempty"`
-	FilterAT   string     `json:"filter_at,omitempty"`
-	NoAPI      bool       `json:"no_api,omitempty"` // referrers via tag schema
+	// CancelAtPage: the context ends while the callback handles this page (it returns nil): a listing
+	// that then reports success must have delivered everything
+	CancelAtPage int    `json:"cancel_at_page,omitempty"`
+	FailWith     string `json:"fail_with,omitempty"` // the callback's error wraps this sentinel error of the library ("" = none)
+	MaxMeta      int64  `json:"max_meta,omitempty"`
+	Pad          int    `json:"pad,omitempty"`
+	FilterAT     string `json:"filter_at,omitempty"`
+	NoAPI        bool   `json:"no_api,omitempty"` // referrers via tag schema
 	// ocitags: tasks that list while the tags are being set and removed, and the tags removed again
 	Listers int   `json:"listers,omitempty"`
 	Untag   []int `json:"untag,omitempty"`
@@ -126,7 +129,9 @@ func (p *listProp) Gen(r *Rand, tier string, idx int) any {
 			lp.Last = pick(r, []string{"a", "m", "v2", "zzz", "0"})
 		}
 	}
-	if r.Chance(0.2) {
+	if r.Chance(0.1) {
+		lp.CancelAtPage = r.Range(1, 3)
+	} else if r.Chance(0.2) {
 		lp.FailAtPage = r.Range(1, 3)
 		if r.Bool() {
 			lp.FailWith = pick(r, []string{"not-found", "not-found", "already-exists", "unsupported", "size-exceeds", "eof"})
@@ -211,7 +216,8 @@ func (p *listProp) Run(rc *RunCtx, sc *Scenario) *RunInfo {
 }
 
 func (p *listProp) run(rc *RunCtx, lp *ListParams, info *RunInfo) *Verdict {
-	ctx := context.Background()
+	ctx, cancelCtx := context.WithCancel(context.Background())
+	defer cancelCtx()
 	const host = "registry.test"
 	const repoName = "lib/app"
 	reg := NewSimRegistry(host, lp.Profile)
@@ -224,6 +230,9 @@ func (p *listProp) run(rc *RunCtx, lp *ListParams, info *RunInfo) *Verdict {
 	fn := func(items []string) error {
 		pages++
 		delivered = append(delivered, append([]string{}, items...))
+		if lp.CancelAtPage > 0 && pages == lp.CancelAtPage {
+			cancelCtx() // the caller gives up while it handles this page, and returns nil from the callback
+		}
 		if lp.FailAtPage > 0 && pages == lp.FailAtPage {
 			if w, ok := errCallbackWraps[lp.FailWith]; ok {
 				return w
@@ -544,6 +553,8 @@ func (p *listProp) run(rc *RunCtx, lp *ListParams, info *RunInfo) *Verdict {
 			info.Probes["callback_failure_returned"]++
 		} else if pages > lp.FailAtPage && lp.FailAtPage > 0 {
 			return violation("continued-after-callback-error", "", "%s: %d pages delivered after the callback failed at page %d", what, pages, lp.FailAtPage)
+		} else if lp.CancelAtPage > 0 && pages >= lp.CancelAtPage && (errors.Is(callErr, context.Canceled)) {
+			info.Probes["listing_ended_by_cancellation_between_pages"]++
 		} else {
 			// a failure is legitimate only if a document did not fit in MaxMetadataBytes
 			over := false
